@@ -36,7 +36,10 @@ FAMILIES = [("Spin12", "dense"), ("Spin12", "Z2"), ("Spin12", "U1"), ("Spin1", "
 LOCAL_DIM = {"Spin12": 2, "Spin1": 3, "SpinlessFermions": 2, "SpinfulFermions": 4}
 DENSE_CAP = 1 << 14          # largest dense state handled by the NumPy references
 TOL = 1e-10                  # relative tolerance of dense comparisons (observed round-off ≤ 1e-14)
-TOL_D = 1e-9                 # discarded weight vs dense distance
+TOL_D = 1e-9                 # quantities derived from the discarded weight through sqrt(1-d²) (ill-conditioned near d=1)
+TOL_W = 1e-12                # ABSOLUTE tolerance of a returned discarded weight vs the dense distance / the tail of the dense
+                             # spectrum (both resolve weights down to ~1e-15; observed deviation ≤ 1e-14): a small truncation
+                             # error must be reported accurately, not only a large one
 TOL_FOLD = 1e-12             # exact refold vs returned total
 BIG = 10 ** 6
 
@@ -553,6 +556,20 @@ def run_program(ctx, case, model=None):
                 # is silent about zero states (they cannot be normalised)
                 ctx.count("program:state-annihilated")
                 return
+            elif c[0] == "diag" and had_centre and m is not None and m["pC"] is not None and \
+                    all(g == "L" for g in m["gauge"][:max(m["pC"][0] + 1, 0)]) and all(g == "R" for g in m["gauge"][max(m["pC"][1], 0):]):
+                # binding cut of one bond of a chain in mixed canonical form (isometries verified above): the kept
+                # Schmidt values are normalised, their norm is 1 (normalize) or sits in factor
+                nv = float(np.linalg.norm(v))
+                ctx.count("program:binding-cut-mixed-form")
+                if call_normalize(c) and (abs(nv - 1) > TOL or not (psi.factor == 1)):
+                    ctx.fail("oracle", "c08:cut:not-normalised", f"{where}: binding diagonalize_central_(normalize=True) in mixed canonical form left "
+                             f"factor={psi.factor!r} and a state of norm {nv!r}", **ok)
+                    return
+                if not call_normalize(c) and abs(psi.factor - nv) > TOL * nv:
+                    ctx.fail("oracle", "c08:cut:factor", f"{where}: binding diagonalize_central_(normalize=False) in mixed canonical form: "
+                             f"factor={psi.factor!r} but the state has norm {nv!r}", **ok)
+                    return
             ref = v
             if case.get("observe_at") == i and float(np.linalg.norm(v)) > 1e-6:
                 observables_check(ctx, psi, ops, case, f"after {where}", v)
@@ -655,23 +672,181 @@ def gen_program(rng, quick, dense):
 # (ii)/(iii) binding truncation on a prepared state
 # =====================================================================================================
 
-def gen_trunc_case(rng, quick):
-    st = gen_state_spec(rng, quick, dense=True)
+PERT_D = [1, 2, 3, 4]
+
+
+def gen_opts(rng, st):
+    """truncation options that can bind on the state `st` (for kind 'pert': mostly limits that separate the
+    O(1) Schmidt values of a from the O(eps) ones of eps*b, so that the discarded weight is small but non-zero)"""
+    if st["kind"] == "pert" and rng.random() < 0.85:
+        t = float("%.3e" % 10 ** (math.log10(st["eps"]) * rng.uniform(0.35, 0.75)))
+        return rng.choice([{"D_total": st["D"]}, {"D_total": st["D"]}, {"tol": t}, {"D_total": st["D"], "tol": t},
+                           {"D_total": st["D"] + 1}, {"tol_block": t}])
+    if rng.random() < 0.12:   # small tolerances: bind only on tiny (or exactly vanishing) Schmidt values
+        return rng.choice([{"tol": 1e-4}, {"tol": 1e-6}, {"tol": 1e-8}, {"tol": 1e-5, "D_total": 6}, {"tol_block": 1e-7}])
+    return rng.choice(BINDING + [{"D_total": 1}, {"D_total": 2}, {"D_total": 2}, {"D_total": 3}, {"D_total": 4}, {"tol": 0.1},
+                                 {"tol": 0.5, "D_total": 2}, {"tol": 0.6}, {"tol": 0.01}])
+
+
+def gen_binding_state(rng, quick):
+    st = gen_state_spec(rng, quick, dense=True, pert=0.3)
     for _ in range(6):   # bias towards states on which a limit can bind
         if (st["N"] >= 2 and st["kind"] != "product") or rng.random() < 0.1:
             break
-        st = gen_state_spec(rng, quick, dense=True)
-    st["D"] = rng.choice([3, 4, 6, 8])
-    o = rng.choice(BINDING + [{"D_total": 1}, {"D_total": 2}, {"D_total": 2}, {"D_total": 3}, {"D_total": 4}, {"tol": 0.1},
-                              {"tol": 0.5, "D_total": 2}, {"tol": 0.6}, {"tol": 0.01}])
+        st = gen_state_spec(rng, quick, dense=True, pert=0.3)
+    st["D"] = rng.choice(PERT_D if st["kind"] == "pert" else [3, 4, 6, 8])
+    return st
+
+
+def gen_trunc_case(rng, quick):
+    st = gen_binding_state(rng, quick)
+    o = gen_opts(rng, st)
     to = rng.choice(["first", "last"])
     return {"mode": "truncate", "state": st, "to": to, "opts": o, "normalize": rng.random() < 0.5,
             "prepared": rng.random() < 0.85, "prep_normalize": rng.random() < 0.3}
 
 
+def gen_bond_case(rng, quick):
+    """stand-alone truncation of ONE bond with the documented building blocks: state in the opposite canonical form,
+    QR steps up to a random site, then orthogonalize_site_ -> diagonalize_central_(binding opts) -> absorb_central_"""
+    st = gen_binding_state(rng, quick)
+    N = st["N"]
+    to = rng.choice(["first", "last"])
+    site = rng.randrange(N)
+    if N >= 2 and rng.random() < 0.7:   # a bond inside the chain (at the chain ends the bond has dimension 1)
+        site = rng.randrange(0, N - 1) if to == "last" else rng.randrange(1, N)
+    nm = rng.random() < 0.5
+    return {"mode": "bond", "state": st, "to": to, "site": site, "opts": gen_opts(rng, st),
+            "prep_normalize": rng.random() < 0.3, "sweep_normalize": rng.random() < 0.5,
+            "orth_normalize": nm if rng.random() < 0.7 else not nm, "normalize": nm,
+            "absorb": rng.choice(["first", "last", "last", None]), "observe": rng.random() < 0.3}
+
+
 def frac_of_float(x):
     a, b = float(x).as_integer_ratio()
     return [str(a), str(b)]
+
+
+def weight_bucket(d):
+    if d <= 0:
+        return "0"
+    if d < 1e-10:
+        return "<1e-10"
+    if d < 1e-6:
+        return "1e-10..1e-6"
+    if d < 1e-3:
+        return "1e-6..1e-3"
+    return ">=1e-3"
+
+
+def cut_record(orig, self_, opts_svd, normalize, ops):
+    """run the real diagonalize_central_ and record what the property talks about: the dense state before and after,
+    the returned weight, the number of kept values, the factor and the stored Schmidt values"""
+    pre = dense_state(self_, ops)
+    pc = self_.pC
+    f0 = self_.factor
+    d = orig(self_, opts_svd, normalize=normalize)
+    post = dense_state(self_, ops)
+    rec = {"pC": pc, "d": float(d), "pre": pre, "post": post, "factor_before": f0, "factor": self_.factor,
+           "kept": None, "stored": None}
+    if pc is not None:
+        C = self_.A[self_.pC]
+        rec["kept"] = int(C.get_shape(axes=0))
+        if C.isdiag:
+            rec["stored"] = np.sort(np.abs(C.to_numpy().diagonal()))[::-1]
+    return d, rec
+
+
+def check_cut(ctx, case, cdat, opts, nm, N, nr, where, v_final=None):
+    """one binding/non-binding diagonalize_central_ on a state that is in mixed canonical form around the cut.
+    Returns False if the cut could not be evaluated."""
+    ok = dict(case=case, concrete=True)
+    pre, post = cdat["pre"], cdat["post"]
+    npre, npost = float(np.linalg.norm(pre)), float(np.linalg.norm(post))
+    cut = cdat["pC"][1]
+    d = cdat["d"]
+    if npre == 0 or npost == 0:
+        return False
+    coef = np.vdot(post, pre) / npost ** 2
+    proj = coef * post
+    dloc = float(np.linalg.norm(pre - proj) / npre)
+    _obs("cut-distance", abs(dloc - d))
+    if abs(dloc - d) > TOL_W:
+        ctx.fail("oracle", "c08:cut:distance", f"{where}: diagonalize_central_ returned {d!r} but the relative distance of the "
+                 f"state before/after the cut is {dloc!r}", **ok)
+    # ---- norm bookkeeping of the cut ("unit norm" / "fixes the norm kept in the factor"; the docstring: the
+    #      retained Schmidt values are normalised, their norm goes to factor)
+    if nm:
+        _obs("cut-norm", abs(npost - 1))
+        if not (cdat["factor"] == 1) or abs(npost - 1) > TOL:
+            ctx.fail("oracle", "c08:cut:not-normalised", f"{where}: diagonalize_central_(normalize=True) left factor={cdat['factor']!r} and a "
+                     f"state of norm {npost!r} (returned weight {d!r})", **ok)
+    else:
+        if abs(coef - 1) > TOL_D:
+            ctx.fail("oracle", "c08:cut:factor", f"{where}: normalize=False but the truncated state is rescaled by {coef!r}", **ok)
+        _obs("cut-factor", abs(cdat["factor"] - npost) / npost)
+        if abs(cdat["factor"] - npost) > TOL * npost:
+            ctx.fail("oracle", "c08:cut:factor", f"{where}: normalize=False: factor={cdat['factor']!r} after the cut but the state has norm "
+                     f"{npost!r} (central block not normalised / norm of the kept values not in factor)", **ok)
+        kept_norm = npre * math.sqrt(max(0.0, 1 - d * d))
+        if abs(npost - kept_norm) > TOL_D * npre:
+            ctx.fail("oracle", "c08:cut:factor", f"{where}: normalize=False: norm after the cut {npost!r} but ‖ψ‖·sqrt(1−d²) = {kept_norm!r}", **ok)
+    s_pre = dense_svals(pre, N, nr, cut) / npre
+    s_post = dense_svals(proj, N, nr, cut) / npre
+    mkept = int(np.sum(s_post > 1e-9))
+    ref_d = float(np.sqrt(max(0.0, 1 - np.sum(s_post[:mkept] ** 2))))
+    simple = set(opts) <= {"D_total", "tol"}
+    kept = cdat["kept"]
+    if cdat["stored"] is not None:
+        # the block left between the sites holds the (normalised) Schmidt values of the truncated state
+        err = pad_compare(cdat["stored"], dense_svals(post, N, nr, cut) / npost)
+        _obs("cut-stored", err)
+        if err > TOL:
+            ctx.fail("oracle", "c08:cut:stored-values", f"{where}: the diagonal central block {cdat['stored'][:6].tolist()} differs from the "
+                     f"Schmidt values of the dense truncated state by {err:.3e}", **ok)
+    if simple:
+        # kept = the largest ones (multiset; ties may be broken either way)
+        err = pad_compare(s_pre[:mkept], s_post[:mkept])
+        if err > TOL:
+            ctx.fail("oracle", "c08:cut:not-largest", f"{where}: kept Schmidt values {s_post[:mkept].tolist()} are not the largest of "
+                     f"{s_pre[:mkept + 3].tolist()}", **ok)
+        tol_o, Dt_o = opts.get("tol", 0), opts.get("D_total", BIG)
+        smax = s_pre[0]
+        lo = min(Dt_o, int(np.sum(s_pre > tol_o * smax * (1 + 1e-8) + 1e-12 * smax)))
+        hi = min(Dt_o, int(np.sum(s_pre > tol_o * smax * (1 - 1e-8) - 1e-12 * smax)))
+        edge = cdat["pC"][0] < 0 or cdat["pC"][1] > N - 1
+        if not edge and not (lo <= kept <= max(hi, lo)):
+            ctx.fail("oracle", "c08:cut:count", f"{where}: {kept} Schmidt values kept, expected between {lo} and {hi} for {opts} on {s_pre[:8].tolist()}", **ok)
+        # the weight is the norm of the discarded tail of the dense spectrum (summed directly: resolves small weights)
+        tail = float(np.linalg.norm(s_pre[kept:]))
+        _obs("cut-tail", abs(tail - d))
+        if abs(tail - d) > TOL_W:
+            ctx.fail("oracle", "c08:cut:weight", f"{where}: returned local weight {d!r} but the {len(s_pre) - kept} smallest dense Schmidt values "
+                     f"(all but the {kept} kept) have norm {tail!r}", **ok)
+    else:
+        # block-wise limits: kept values are a sub-multiset of the spectrum before the cut
+        pool = list(s_pre)
+        for x in s_post[:mkept]:
+            j = int(np.argmin([abs(x - y) for y in pool])) if pool else -1
+            if j < 0 or abs(pool[j] - x) > TOL:
+                ctx.fail("oracle", "c08:cut:not-spectrum", f"{where}: kept value {x!r} is not a Schmidt value of the state before the cut", **ok)
+                break
+            pool.pop(j)
+    if abs(ref_d - d) > 1e-7 and abs(ref_d ** 2 - d ** 2) > TOL_D:
+        ctx.fail("oracle", "c08:cut:weight", f"{where}: returned local weight {d!r}, from the dense Schmidt values {ref_d!r}", **ok)
+    # contracts of `nested_projection_error`: P_k is an orthogonal projection, and the final state is
+    # orthogonal to every residual (nesting)
+    res = pre - proj
+    c1 = abs(np.vdot(proj, res)) / npre ** 2
+    c2 = 0.0
+    if v_final is not None:
+        n1 = float(np.linalg.norm(v_final))
+        c2 = abs(np.vdot(v_final, res)) / (npre * n1) if n1 else 0.0
+    _obs("nested-projection", max(c1, c2))
+    if c1 > TOL_D or c2 > TOL_D:
+        ctx.fail("contract", "c08:contract:nested-projection", f"{where}: <P psi, psi - P psi>={c1:.3e}, <psi_final, residual>={c2:.3e}",
+                 case=case, concrete=False)
+    return True
 
 
 def run_truncate(ctx, case, refold_queue=None):
@@ -693,12 +868,8 @@ def run_truncate(ctx, case, refold_queue=None):
     cuts = []
 
     def on_diag(orig, self_, opts_svd, normalize):
-        pre = dense_state(self_, ops)
-        pc = self_.pC
-        d = orig(self_, opts_svd, normalize=normalize)
-        post = dense_state(self_, ops)
-        cuts.append({"pC": pc, "d": float(d), "pre": pre, "post": post,
-                     "kept": int(self_.A[self_.pC].get_shape(axes=0)) if pc is not None else None})
+        d, rec = cut_record(orig, self_, opts_svd, normalize, ops)
+        cuts.append(rec)
         return d
 
     with Recorder(on_diag=on_diag):
@@ -746,86 +917,144 @@ def run_truncate(ctx, case, refold_queue=None):
             ctx.fail("oracle", "c08:truncate:factor", f"truncate_(normalize=False): factor={psi.factor!r} but dense norm of the result {n1!r}", **ok)
     if not prepared:
         return
-    # ---- the returned number is the true relative error of the sweep
+    # ---- the returned number is the true relative error of the sweep (absolute tolerance TOL_W: a small error must
+    #      be reported with (nearly) the accuracy with which the dense reference resolves it)
     if n1 > 0:
         c = np.vdot(v1, v0) / n1 ** 2        # orthogonal projection of v0 on span(v1)
         dist = float(np.linalg.norm(v0 - c * v1) / n0)
         _obs("distance", abs(dist - ret))
-        if abs(dist - ret) > TOL_D:
+        if abs(dist - ret) > TOL_W:
             ctx.fail("oracle", "c08:truncate:distance", f"returned discarded weight {ret!r} but relative distance to the truncated state is {dist!r}", **ok)
         if not nm:
             direct = float(np.linalg.norm(v0 - v1) / n0)
-            if abs(direct - ret) > TOL_D:
+            _obs("distance", abs(direct - ret))
+            if abs(direct - ret) > TOL_W:
                 ctx.fail("oracle", "c08:truncate:distance", f"normalize=False: returned {ret!r} but ‖ψ−ψ_trunc‖/‖ψ‖ = {direct!r}", **ok)
             kept = n0 * math.sqrt(max(0.0, 1 - ret * ret))
             if abs(psi.factor - kept) > TOL_D * n0:
                 ctx.fail("oracle", "c08:truncate:factor", f"normalize=False: factor={psi.factor!r} but kept norm ‖ψ‖·sqrt(1−d²) = {kept!r}", **ok)
     # ---- per cut
-    simple = set(opts) <= {"D_total", "tol"}
     psi_prev_scaled = v0
     for k, cdat in enumerate(cuts):
-        pre, post = cdat["pre"], cdat["post"]
-        npre, npost = float(np.linalg.norm(pre)), float(np.linalg.norm(post))
-        cut = cdat["pC"][1]
         where = f"cut {cdat['pC']} (#{k})"
-        if npre == 0 or npost == 0:
+        if not check_cut(ctx, case, cdat, opts, nm, N, nr, where, v_final=v1):
             continue
-        coef = np.vdot(post, pre) / npost ** 2
-        proj = coef * post
-        dloc = float(np.linalg.norm(pre - proj) / npre)
-        _obs("cut-distance", abs(dloc - cdat["d"]))
-        if abs(dloc - cdat["d"]) > TOL_D:
-            ctx.fail("oracle", "c08:cut:distance", f"{where}: diagonalize_central_ returned {cdat['d']!r} but the relative distance of the "
-                     f"state before/after the cut is {dloc!r}", **ok)
-        if not nm and abs(coef - 1) > TOL_D:
-            ctx.fail("oracle", "c08:cut:factor", f"{where}: normalize=False but the truncated state is rescaled by {coef!r}", **ok)
-        s_pre = dense_svals(pre, N, nr, cut) / npre
-        s_post = dense_svals(proj, N, nr, cut) / npre
-        mkept = int(np.sum(s_post > 1e-9))
-        ref_d = float(np.sqrt(max(0.0, 1 - np.sum(s_post[:mkept] ** 2))))
-        if simple:
-            # kept = the largest ones (multiset; ties may be broken either way)
-            err = pad_compare(s_pre[:mkept], s_post[:mkept])
-            if err > TOL:
-                ctx.fail("oracle", "c08:cut:not-largest", f"{where}: kept Schmidt values {s_post[:mkept].tolist()} are not the largest of "
-                         f"{s_pre[:mkept + 3].tolist()}", **ok)
-            tol_o, Dt_o = opts.get("tol", 0), opts.get("D_total", BIG)
-            smax = s_pre[0]
-            lo = min(Dt_o, int(np.sum(s_pre > tol_o * smax * (1 + 1e-8) + 1e-12 * smax)))
-            hi = min(Dt_o, int(np.sum(s_pre > tol_o * smax * (1 - 1e-8) - 1e-12 * smax)))
-            kept = cdat["kept"]
-            edge = cdat["pC"][0] < 0 or cdat["pC"][1] > N - 1
-            if not edge and not (lo <= kept <= max(hi, lo)):
-                ctx.fail("oracle", "c08:cut:count", f"{where}: {kept} Schmidt values kept, expected between {lo} and {hi} for {opts} on {s_pre[:8].tolist()}", **ok)
-        else:
-            # block-wise limits: kept values are a sub-multiset of the spectrum before the cut
-            pool = list(s_pre)
-            for x in s_post[:mkept]:
-                j = int(np.argmin([abs(x - y) for y in pool])) if pool else -1
-                if j < 0 or abs(pool[j] - x) > TOL:
-                    ctx.fail("oracle", "c08:cut:not-spectrum", f"{where}: kept value {x!r} is not a Schmidt value of the state before the cut", **ok)
-                    break
-                pool.pop(j)
-        if abs(ref_d - cdat["d"]) > 1e-7 and abs(ref_d ** 2 - cdat["d"] ** 2) > TOL_D:
-            ctx.fail("oracle", "c08:cut:weight", f"{where}: returned local weight {cdat['d']!r}, from the dense Schmidt values {ref_d!r}", **ok)
-        # contracts of `nested_projection_error`: P_k is an orthogonal projection, and the final state is
-        # orthogonal to every residual (nesting)
-        res = pre - proj
-        c1 = abs(np.vdot(proj, res)) / npre ** 2
-        c2 = abs(np.vdot(v1, res)) / (npre * n1) if n1 else 0.0
-        _obs("nested-projection", max(c1, c2))
-        if c1 > TOL_D or c2 > TOL_D:
-            ctx.fail("contract", "c08:contract:nested-projection", f"{where}: <P psi, psi - P psi>={c1:.3e}, <psi_final, residual>={c2:.3e}",
-                     case=case, concrete=False)
         # the state between two cuts is only re-gauged
-        dev = same_state(pre, psi_prev_scaled, True)
+        dev = same_state(cdat["pre"], psi_prev_scaled, True)
         if dev > TOL:
             ctx.fail("oracle", "c08:state-changed", f"{where}: state changed between the cuts by {dev:.3e} (direction)", **ok)
-        psi_prev_scaled = post
+        psi_prev_scaled = cdat["post"]
         ctx.count("truncate:cuts_checked")
         ctx.count("truncate:cut_binding" if cdat["d"] > 1e-12 else "truncate:cut_nonbinding")
+    ctx.count("truncate:weight:" + weight_bucket(ret))
     if ret > 1e-12:
         ctx.count("truncate:binding_runs")
+
+
+def run_bond(ctx, case):
+    """stand-alone single-bond truncation: canonical form opposite to `to`, QR steps up to `site`, then
+    orthogonalize_site_(site) -> diagonalize_central_(opts) [-> absorb_central_]; the state around the cut bond is in
+    mixed canonical form (validated), so the claims of the property about a binding cut apply to this one call."""
+    ops, psi = try_build(ctx, case["state"])
+    if psi is None:
+        return
+    N, nr = psi.N, psi.nr_phys
+    to, opts, nm, site = case["to"], case["opts"], case["normalize"], case["site"]
+    other = "first" if to == "last" else "last"
+    ok = dict(case=case, concrete=True)
+    v_init = dense_state(psi, ops)
+    if not float(np.linalg.norm(v_init)) > 1e-6:
+        return
+    psi.canonize_(to=other, normalize=case["prep_normalize"])
+    for m in psi.sweep(to=to):
+        if m == site:
+            break
+        psi.orthogonalize_site_(m, to=to, normalize=case["sweep_normalize"])
+        psi.absorb_central_(to=to)
+    psi.orthogonalize_site_(site, to=to, normalize=case["orth_normalize"])
+    pc = psi.pC
+    if pc != ((site, site + 1) if to == "last" else (site - 1, site)):
+        ctx.fail("oracle", "c08:pC-invalid", f"orthogonalize_site_({site}, to={to}) left pC={pc}", **ok)
+        return
+    # hypothesis of the binding-cut claims: mixed canonical form around the bond (property: the QR steps produce isometries)
+    for n in range(N):
+        g = "L" if n <= pc[0] else "R"
+        dfc = site_isometry_defect(psi.A[n], nr, g)
+        _obs("isometry", dfc)
+        if dfc > TOL:
+            ctx.fail("oracle", "c08:isometry", f"bond preparation (canonize_ to {other}, QR steps to {to} up to site {site}): site {n} must be a "
+                     f"{g}-isometry, defect {dfc:.3e}", **ok)
+            return
+    pre = dense_state(psi, ops)
+    dev = same_state(pre, v_init, case["prep_normalize"] or case["sweep_normalize"] or case["orth_normalize"])
+    if dev > TOL:
+        ctx.fail("oracle", "c08:state-changed", f"bond preparation changed the represented state by {dev:.3e}", **ok)
+        return
+    npre = float(np.linalg.norm(pre))
+    f_pre = psi.factor
+    if abs(f_pre - npre) > TOL * npre or (case["orth_normalize"] and not (f_pre == 1)):
+        ctx.fail("oracle", "c08:bond:factor", f"mixed canonical form after orthogonalize_site_(normalize={case['orth_normalize']}): "
+                 f"factor={f_pre!r} but the state has norm {npre!r}", **ok)
+        return
+    recs = []
+
+    def on_diag(orig, self_, opts_svd, normalize):
+        d, rec = cut_record(orig, self_, opts_svd, normalize, ops)
+        recs.append(rec)
+        return d
+
+    with Recorder(on_diag=on_diag):
+        d = float(psi.diagonalize_central_(opts_svd=dict(opts), normalize=nm))
+    cdat = recs[0]
+    ctx.count("bond:runs")
+    edge = pc[0] < 0 or pc[1] > N - 1
+    ctx.count("bond:chain-end" if edge else "bond:interior")
+    ctx.count("bond:weight:" + weight_bucket(d))
+    if psi.pC != pc or psi.pC not in psi.A:
+        ctx.fail("oracle", "c08:pC-invalid", f"diagonalize_central_ moved the centre from {pc} to {psi.pC}", **ok)
+        return
+    if not (0 <= d <= 1 + 1e-12):
+        ctx.fail("oracle", "c08:truncate:range", f"returned discarded weight {d!r} outside [0,1]", **ok)
+    where = f"bond {pc}"
+    if not check_cut(ctx, case, cdat, opts, nm, N, nr, where):
+        return
+    Dt = opts.get("D_total")
+    if Dt is not None and cdat["kept"] > Dt:
+        ctx.fail("oracle", "c08:truncate:D_total", f"{where}: {cdat['kept']} values kept, D_total={Dt}", **ok)
+    # the cut leaves the neighbouring sites isometric (U, V of the SVD are isometries)
+    for n in range(N):
+        dfc = site_isometry_defect(psi.A[n], nr, "L" if n <= pc[0] else "R")
+        if dfc > TOL:
+            ctx.fail("oracle", "c08:isometry", f"{where}: after the cut site {n} isometry defect {dfc:.3e}", **ok)
+            return
+    post = cdat["post"]
+    npost = float(np.linalg.norm(post))
+    if d > 1e-12:
+        ctx.count("bond:binding")
+    # ---- absorb the truncated centre: same state, documented norm convention visible through the public observers
+    if case["absorb"] is not None:
+        psi.absorb_central_(to=case["absorb"])
+        if psi.pC is not None or len(psi.A) != N:
+            ctx.fail("oracle", "c08:truncate:centre-left", f"absorb_central_ left pC={psi.pC}, keys {list(psi.A)}", **ok)
+            return
+        v2 = dense_state(psi, ops)
+        dev = same_state(v2, post, False)
+        _obs("state", dev)
+        if dev > TOL:
+            ctx.fail("oracle", "c08:state-changed", f"{where}: absorb_central_ after the cut changed the state by {dev:.3e}", **ok)
+            return
+        n2 = float(np.linalg.norm(v2))
+        nrm = float(psi.norm())
+        _obs("norm", abs(nrm - n2) / n2)
+        if abs(nrm - n2) > TOL * n2:
+            ctx.fail("oracle", "c08:norm", f"{where}: norm()={nrm!r} but dense norm={n2!r}", **ok)
+        if nm and (abs(n2 - 1) > TOL or not (psi.factor == 1)):
+            ctx.fail("oracle", "c08:not-normalised", f"{where}: orthogonalize_site_ -> diagonalize_central_(normalize=True) -> absorb_central_ "
+                     f"left factor={psi.factor!r} and a state of norm {n2!r}", **ok)
+        if not nm and abs(psi.factor - n2) > TOL * n2:
+            ctx.fail("oracle", "c08:bond:factor", f"{where}: normalize=False: factor={psi.factor!r} but the truncated state has norm {n2!r}", **ok)
+        if case.get("observe"):
+            observables_check(ctx, psi, ops, case, f"after the cut of {where}", v2)
 
 
 def flush_refolds(ctx, queue):
@@ -901,6 +1130,8 @@ def run(ctx):
     n_trace = 200 if quick else 1500
     n_dense = 180 if quick else 1200
     n_trunc = 240 if quick else 1500
+    n_bond = 160 if quick else 1000
+    budget_bond = 12 if quick else 120
     # --- (i) trace programs without dense references (all lengths 1..7, all families)
     cases = [gen_program(rng, quick, dense=False) for _ in range(n_trace)]
     cases += [gen_program(rng, quick, dense=True) for _ in range(n_dense)]
@@ -935,8 +1166,22 @@ def run(ctx):
         ctx.count(f"kind={st['kind']}")
         ctx.count("mpo" if st["nr_phys"] == 2 else "mps")
     flush_refolds(ctx, queue)
+    # --- (ii) stand-alone single-bond truncation
+    for _ in range(n_bond):
+        if time.time() - t0 > budget + budget_bond:
+            ctx.count("skipped_for_budget")
+            continue
+        case = gen_bond_case(rng, quick)
+        before = ctx.stats.get("bond:binding", 0)
+        _guarded(ctx, run_bond, case)
+        ctx.case(case, nontrivial=ctx.stats.get("bond:binding", 0) > before)
+        st = case["state"]
+        ctx.count(f"N={st['N']}")
+        ctx.count(f"sym={st['sym']}")
+        ctx.count(f"kind={st['kind']}")
+        ctx.count("mpo" if st["nr_phys"] == 2 else "mps")
     ctx.extra["largest_observed_deviation"] = dict(OBSERVED)
-    ctx.extra["tolerances"] = {"dense": TOL, "distance": TOL_D, "fold": TOL_FOLD, "entropy": 1e-8}
+    ctx.extra["tolerances"] = {"dense": TOL, "discarded-weight(abs)": TOL_W, "sqrt(1-d^2)-derived": TOL_D, "fold": TOL_FOLD, "entropy": 1e-8}
     ctx.assumptions += [
         "QR/SVD of the backend satisfy their contracts (Q†Q=1, A=QR; U†U=1, VV†=1, A=USV): validated numerically on every case, not proved",
         "the identification of yastn's local truncation with a nested orthogonal projector is validated numerically (contract c08:contract:nested-projection), not proved",
@@ -955,6 +1200,8 @@ def search(ctx, broken, budget_s):
         _guarded(ctx, run_program, case, m)
         case = gen_trunc_case(rng, True)
         _guarded(ctx, run_truncate, case, None)
+        case = gen_bond_case(rng, True)
+        _guarded(ctx, run_bond, case)
 
 
 def replay(ctx, obj):
@@ -972,6 +1219,8 @@ def replay(ctx, obj):
         q = []
         _guarded(ctx, run_truncate, case, q)
         flush_refolds(ctx, q)
+    elif case.get("mode") == "bond":
+        _guarded(ctx, run_bond, case)
     else:
         m = model_traces(ctx, [case])[0]
         _guarded(ctx, run_program, case, m)
